@@ -259,6 +259,70 @@ func (w *world) runCheck(ctx context.Context, client bufcheck.Client, c caseRec)
 	return as, nil, false
 }
 
+// runCheckViaReader runs the case with the configuration the real reader derives for the second module of a
+// two-module v2 buf.yaml whose top-level section carries the case's settings (paths prefixed with the module directory).
+func (w *world) runCheckViaReader(ctx context.Context, client bufcheck.Client, c caseRec) ([]bufx.Annotation, error) {
+	parts := strings.SplitN(c.Kind, "-", 2)
+	var sb strings.Builder
+	// the linted module is listed (and sorted) after another one
+	sb.WriteString("version: v2\nmodules:\n  - path: a_other\n  - path: m\n" + parts[0] + ":\n")
+	list := func(key string, xs []string, prefix string) {
+		if len(xs) == 0 {
+			return
+		}
+		sb.WriteString("  " + key + ":\n")
+		for _, x := range xs {
+			sb.WriteString("    - " + prefix + x + "\n")
+		}
+	}
+	list("use", c.Use, "")
+	list("except", c.Except, "")
+	list("ignore", c.Ignore, "m/")
+	if len(c.IgnoreOnly) > 0 {
+		sb.WriteString("  ignore_only:\n")
+		for _, k := range bufx.SortedKeys(c.IgnoreOnly) {
+			sb.WriteString("    " + k + ":\n")
+			for _, x := range c.IgnoreOnly[k] {
+				sb.WriteString("      - m/" + x + "\n")
+			}
+		}
+	}
+	if parts[0] == "lint" && !c.AllowComments {
+		sb.WriteString("  disallow_comment_ignores: true\n")
+	}
+	f, err := bufconfig.ReadBufYAMLFile(strings.NewReader(sb.String()), "buf.yaml")
+	if err != nil {
+		return nil, err
+	}
+	if len(f.ModuleConfigs()) != 2 {
+		return nil, fmt.Errorf("%d module configs", len(f.ModuleConfigs()))
+	}
+	var mc bufconfig.ModuleConfig
+	for _, x := range f.ModuleConfigs() {
+		if x.DirPath() == "m" {
+			mc = x
+		}
+	}
+	if mc == nil {
+		return nil, fmt.Errorf("no module config for directory m")
+	}
+	var cerr error
+	if parts[0] == "lint" {
+		cerr = client.Lint(ctx, mc.LintConfig(), w.lintImage)
+	} else {
+		var opts []bufcheck.BreakingOption
+		if c.ExcludeImports {
+			opts = append(opts, bufcheck.BreakingWithExcludeImports())
+		}
+		cerr = client.Breaking(ctx, mc.BreakingConfig(), w.cur, w.prev, opts...)
+	}
+	as, ok := bufx.Annotations(cerr)
+	if !ok {
+		return nil, cerr
+	}
+	return as, nil
+}
+
 func runReplay(in []byte) (*reg.Result, error) {
 	var inp input
 	if err := reg.Decode(in, &inp); err != nil {
@@ -378,6 +442,34 @@ func runReplay(in []byte) (*reg.Result, error) {
 				}
 				if len(extra) > 0 {
 					res.Violate(fmt.Sprintf("extra/%s/%s", c.Kind, strings.Split(extra[0], ":")[3]), caseInfo, "annotations were reported that the specification says are not selected or are suppressed (%d): %v", len(extra), extra[:min(len(extra), 4)])
+				}
+				// the same configuration written as the shared top-level section of a two-module v2 buf.yaml and read by the
+				// real reader must give the same result for the second module
+				if strings.HasSuffix(c.Kind, "-v2") {
+					got2, rerr := w.runCheckViaReader(ctx, client, c)
+					if rerr != nil {
+						res.Violate("reader-rejected/"+c.Kind, caseInfo, "the configuration is accepted by the constructor but not as a top-level v2 section: %v", rerr)
+					} else {
+						set2 := map[string]bool{}
+						for _, a := range got2 {
+							set2[annKey(a)] = true
+						}
+						var diff []string
+						for k := range gotSet {
+							if !set2[k] {
+								diff = append(diff, "only-constructor:"+k)
+							}
+						}
+						for k := range set2 {
+							if !gotSet[k] {
+								diff = append(diff, "only-reader:"+k)
+							}
+						}
+						sort.Strings(diff)
+						if len(diff) > 0 {
+							res.Violate("reader-differs/"+c.Kind+"/"+strings.Split(diff[0], ":")[4], caseInfo, "the shared top-level section of a v2 buf.yaml gives the second module a different result (%d): %v", len(diff), diff[:min(len(diff), 4)])
+						}
+					}
 				}
 				// ConfiguredRules = Selected
 				parts := strings.SplitN(c.Kind, "-", 2)
